@@ -1646,6 +1646,8 @@ namespace bloch::runtime {
         m_inConstructor = prevCtor;
         m_inDestructor = prevDtor;
         m_hasReturn = savedReturn;
+        // A constructor's `return this` must not keep the object alive in the return slot.
+        m_returnValue = {};
     }
 
     Value RuntimeEvaluator::callMethod(RuntimeMethod* method, RuntimeClass* staticDispatchClass,
